@@ -718,6 +718,7 @@ class Eval:
     for _ty in ('StateID', 'PatternID', 'SmallIndex'):
         PURE['util::primitives::%s::new' % _ty] = lambda x: ('Ok', x)
         PURE['util::primitives::%s::new_unchecked' % _ty] = lambda x: x
+        PURE['util::primitives::%s::from_u32_unchecked' % _ty] = lambda x: x
         PURE['util::primitives::%s::must' % _ty] = lambda x: x
         PURE['util::primitives::%s::one_more' % _ty] = lambda x: x + 1
         for _m in ('as_usize', 'as_u32', 'as_u64', 'as_i32'):
